@@ -161,6 +161,22 @@ func hdr(m *service.Message) (id, serial uint16, phone string) {
 	return
 }
 
+// keep (KeepMsg): the event remembers the message object itself plus a snapshot of everything a callback can read from it
+func (r *Recorder) keep(e *Event, m *service.Message) {
+	if !r.KeepMsg || m == nil {
+		return
+	}
+	e.Msg = m
+	e.Raw = bytes.Clone(m.ExtensionFields.TerminalData)
+	if m.JTMessage != nil {
+		e.Data = bytes.Clone(m.JTMessage.Body)
+		e.HdrDump = DumpBytesAndStrings(m.JTMessage.Header)
+		if m.JTMessage.Header != nil {
+			e.Sum, e.No = m.JTMessage.Header.SubPackageSum, m.JTMessage.Header.SubPackageNo
+		}
+	}
+}
+
 func (r *Recorder) OnJoinEvent(m *service.Message, key string, err error) {
 	r.register(m)
 	id, serial, phone := hdr(m)
@@ -168,13 +184,16 @@ func (r *Recorder) OnJoinEvent(m *service.Message, key string, err error) {
 	if err != nil {
 		e.Err = err.Error()
 	}
+	r.keep(&e, m)
 	r.addR(e)
 }
 func (r *Recorder) OnLeaveEvent(key string) { r.addR(Event{Kind: "leave", Key: key}) }
 func (r *Recorder) OnNotSupportedEvent(m *service.Message) {
 	r.register(m)
 	id, serial, phone := hdr(m)
-	r.addR(Event{Kind: "notsupp", ID: id, Serial: serial, Phone: phone})
+	e := Event{Kind: "notsupp", ID: id, Serial: serial, Phone: phone}
+	r.keep(&e, m)
+	r.addR(e)
 }
 func (r *Recorder) OnReadExecutionEvent(m *service.Message) {
 	r.register(m)
